@@ -219,9 +219,11 @@ class Trace:
                         # have none): the freshest cached record that is the same on the wire
                         eb = e
                         if e is None and store is not None and getattr(r, "address", None) is not None:
-                            # no exact copy: the first copy heard on an IPv6 socket (same record on the wire, another scope id), in the
-                            # store's own order -- what a scope-blind look-up (notes/fixes/D29-candidate.diff) finds
-                            eb = next((x for x in store if x.type == r.type and x.class_ == r.class_ and getattr(x, "address", None) == r.address), None)
+                            # no exact copy: the freshest copy heard on an IPv6 socket (same record on the wire, another scope id) -- what
+                            # a scope-blind look-up (notes/fixes/D29-candidate.diff) finds
+                            same = [x for x in store if x.type == r.type and x.class_ == r.class_ and getattr(x, "address", None) == r.address]
+                            if same:
+                                eb = max(same, key=lambda x: x.created)
                         if eb is not None:
                             seen_blind.append((i, int(eb.created), int(eb.ttl)))
                     # what the code's own look-up finds: the scope-blind view on a tree with the candidate repair of D29
@@ -556,7 +558,11 @@ def sighting_gaps(tr, maxdelay=20):
                 r0 = tr.uni.recs[rid]
                 flushed = any(f > s and k == (r0.key, r0.type, r0.class_) and fr != rid for (f, k, fr) in flushes) or \
                     any(s <= g <= c and gr == rid for (g, gr) in goodbyes)
-                if s + maxdelay < c < s + 1000 * ttl and not flushed and not any(pt >= s - 1000 and pr == rid for (pt, pr) in tr.pokes):
+                # a transmission less than a second after another one of the same record may be the identical datagram again: the
+                # duplicate guard then drops its loop-back and the stamp (and the TTL's start) is the earlier one's
+                shadowed = any(r2 == rid and s - 1000 < s2 < s for (r2, s2, _t2) in sent)
+                if (s + maxdelay < c < s + 1000 * ttl and not flushed and not shadowed
+                        and not any(pt >= s - 1000 and pr == rid for (pt, pr) in tr.pokes)):
                     e = seen.get(rid)
                     if e is None or e[0] < s - 1000:
                         probs.append((rid, s - T0, c - T0, e))
